@@ -2,12 +2,14 @@ package main
 
 import (
 	"bytes"
+	"crypto/sha256"
 	"encoding/json"
 	"fmt"
 	"os"
 	"os/exec"
 	"path/filepath"
 	"strings"
+	"time"
 
 	"github.com/wkhere/bcl"
 )
@@ -35,15 +37,15 @@ type cliCase struct {
 }
 
 var cliFixtures = map[string]string{
-	"f.bcl": "var x = 2\ndef srv \"a\" { port = 80 + x }\nprint \"ok\", \n",
-	"e.bcl": "print 1\nprint )\nvar = 3\n",
-	"r.bcl": "print \"before\"\ndef a { f = 1 }\nprint 1 + nil\nprint \"after\"\n",
+	"calc.bcl": "var x = 2\ndef srv \"a\" { port = 80 + x }\nprint \"ok\", \n",
+	"e.bcl":    "print 1\nprint )\nvar = 3\n",
+	"lib.bcl":  "print \"before\"\ndef a { f = 1 }\nprint 1 + nil\nprint \"after\"\n",
 }
 
 func init() {
-	cliFixtures["f.bcl"] = "var x = 2\ndef srv \"a\" { port = 80 + x }\nprint \"ok\"\nprint x * 3\nbind srv -> struct\n"
-	cliFixtures["g.txt"] = cliFixtures["f.bcl"]
-	cliFixtures["-"] = cliFixtures["f.bcl"]
+	cliFixtures["calc.bcl"] = "var x = 2\ndef srv \"a\" { port = 80 + x }\nprint \"ok\"\nprint x * 3\nbind srv -> struct\n"
+	cliFixtures["g.txt"] = cliFixtures["calc.bcl"]
+	cliFixtures["-"] = cliFixtures["calc.bcl"]
 }
 
 type cliObs struct {
@@ -55,10 +57,36 @@ type cliObs struct {
 func runCLI(bin, dir string, argv []string, stdin []byte) cliObs {
 	cmd := exec.Command(bin, argv...)
 	cmd.Dir = dir
-	cmd.Stdin = bytes.NewReader(stdin)
 	var so, se bytes.Buffer
 	cmd.Stdout, cmd.Stderr = &so, &se
-	err := cmd.Run()
+	var err error
+	readsStdin := true // no FILE argument, or '-'
+	for _, a := range argv {
+		if !strings.HasPrefix(a, "-") {
+			readsStdin = false
+		}
+	}
+	h := sha256.Sum256([]byte(strings.Join(argv, "\x00")))
+	if len(stdin) > 8 && readsStdin && h[0]%4 == 0 { // a function of the case, so that a confirming run is delivered the same way
+		// every third run: standard input is a pipe whose writer delivers the text in three pieces with pauses, as a person
+		// typing or an upstream process does; the tool must read to the end of input all the same
+		w, perr := cmd.StdinPipe()
+		if perr != nil {
+			return cliObs{-1, "", perr.Error()}
+		}
+		if err = cmd.Start(); err == nil {
+			a, b := len(stdin)/3, 2*len(stdin)/3
+			for _, piece := range [][]byte{stdin[:a], stdin[a:b], stdin[b:]} {
+				w.Write(piece)
+				time.Sleep(25 * time.Millisecond)
+			}
+			w.Close()
+			err = cmd.Wait()
+		}
+	} else {
+		cmd.Stdin = bytes.NewReader(stdin)
+		err = cmd.Run()
+	}
 	code := 0
 	if ee, ok := err.(*exec.ExitError); ok {
 		code = ee.ExitCode()
@@ -100,22 +128,22 @@ func replayCLI(args []string) int {
 		return 2
 	}
 	defer os.RemoveAll(dir)
-	for _, f := range []string{"f.bcl", "g.txt", "e.bcl", "r.bcl"} {
+	for _, f := range []string{"calc.bcl", "g.txt", "e.bcl", "lib.bcl"} {
 		os.WriteFile(filepath.Join(dir, f), []byte(cliFixtures[f]), 0o644)
 	}
-	p, _ := bcl.Parse([]byte(cliFixtures["f.bcl"]), "f.bcl")
+	p, _ := bcl.Parse([]byte(cliFixtures["calc.bcl"]), "calc.bcl")
 	var b bytes.Buffer
 	p.Dump(&b)
 	dump := append([]byte{}, b.Bytes()...)
 	stdin := []byte(cliFixtures["-"])
 	// a stale, longer dump that is lying at the --bdump path from an earlier run
-	bigp, _ := bcl.Parse([]byte(cliFixtures["f.bcl"]+strings.Repeat("print \"padding\" + 12345\n", 40)), "stale.bcl", bcl.OptOutput(&bytes.Buffer{}))
+	bigp, _ := bcl.Parse([]byte(cliFixtures["calc.bcl"]+strings.Repeat("print \"padding\" + 12345\n", 40)), "stale.bcl", bcl.OptOutput(&bytes.Buffer{}))
 	var sb bytes.Buffer
 	bigp.Dump(&sb)
 	stale := append([]byte{}, sb.Bytes()...)
 	judge := func(c *cliCase) (why, shape string, o cliObs) {
 		os.WriteFile(filepath.Join(dir, "i.bcb"), dump, 0o644)
-		for _, f := range []string{"o.bcb", "f.bcb", "e.bcb", "r.bcb", "nope.bcb"} {
+		for _, f := range []string{"o.bcb", "calc.bcb", "e.bcb", "lib.bcb", "nope.bcb"} {
 			os.Remove(filepath.Join(dir, f))
 		}
 		if c.Bdump && c.BdumpFile != "" && c.BdumpFile != "i.bcb" && len(c.Argv)%2 == 0 {
